@@ -240,6 +240,20 @@ end Link
     (`condDecl`: static dependencies plus dependencies declared only while another resource is
     cached) reach non-trivial states -/
 
+/-- the harness's preparer family respects a rank as soon as the static and the conditional
+    dependencies of the spec do (a failing preparation declares nothing) -/
+theorem condDecl_specRanked {rank : R → Nat} {r : R} (sp : CondSpec R)
+    (h1 : ∀ d ∈ sp.static, rank d < rank r) (h2 : ∀ p ∈ sp.cond, rank p.2 < rank r) :
+    SpecRanked condDecl rank r sp := by
+  intro c d hd
+  unfold condDecl at hd
+  split at hd
+  · cases hd
+  · rcases List.mem_append.1 hd with h | h
+    · exact h1 d h
+    · obtain ⟨p, hp, rfl⟩ := List.mem_map.1 h
+      exact h2 p (List.mem_filter.1 hp).1
+
 def demoRank : Nat → Nat := id
 
 abbrev DS := CondSpec Nat
@@ -254,7 +268,9 @@ example : ∀ a ∈ demoActs, Ranked condDecl demoRank a := by
   intro a ha
   simp only [demoActs, List.mem_cons, List.mem_nil_iff, or_false] at ha
   rcases ha with rfl | rfl | rfl | rfl | rfl | rfl | rfl <;>
-    simp [Ranked, SpecRanked, condDecl, st, demoRank]
+    first
+      | trivial
+      | exact condDecl_specRanked _ (by simp [st, demoRank]) (by simp [st])
 
 /-- before the last monitor step entry 1 is stale (built from generation 1 of resource 0, which is
     at generation 2) and has a pending event; after it the entry is current and the system idle -/
@@ -275,12 +291,10 @@ example : ∀ a ∈ demoDyn, Ranked condDecl demoRank a := by
   intro a ha
   simp only [demoDyn, List.mem_cons, List.mem_nil_iff, or_false] at ha
   rcases ha with rfl | rfl | rfl | rfl | rfl
-  · intro c d hd
-    simp only [condDecl, List.mem_append, List.mem_map, List.mem_filter] at hd
-    rcases hd with hd | ⟨p, ⟨hp, _⟩, rfl⟩
-    · simp at hd; subst hd; simp [demoRank]
-    · simp at hp; subst hp; simp [demoRank]
-  all_goals simp [Ranked, SpecRanked, condDecl, st, demoRank]
+  · exact condDecl_specRanked _ (by simp [demoRank]) (by simp [demoRank])
+  all_goals first
+    | trivial
+    | exact condDecl_specRanked _ (by simp [st]) (by simp [st])
 
 example : (run condDecl init (demoDyn.take 1)).subs 2 = [1] ∧
     (run condDecl init (demoDyn.take 3)).subs 2 = [1, 0] ∧
@@ -288,6 +302,21 @@ example : (run condDecl init (demoDyn.take 1)).subs 2 = [1] ∧
     (run condDecl init (demoDyn.take 4)).gen 0 = 1 ∧
     ((run condDecl init demoDyn).cache 2).map (fun e => e.seen 0) = some 1 ∧
     (run condDecl init demoDyn).queue 2 = some [] := by
+  decide
+
+/-- a preparation that FAILS: resource 2 follows 1; its preparer fails while 0 is cached.  After 0
+    arrives and 1 changes, the monitor re-prepares 2, the preparation fails, the failure is cached
+    under the same version and 2 follows nothing any more — and its own watcher 3 is told. -/
+def demoFail : List (Action Nat DS) :=
+  [.offer 1 1 (st []), .offer 2 1 { static := [1], cond := [], failWhen := [0] }, .offer 3 1 (st [2]),
+   .offer 0 1 (st []), .offer 1 2 (st []), .bg 2, .bg 3]
+
+example : (run condDecl init (demoFail.take 3)).subs 2 = [1] ∧
+    (run condDecl init demoFail).subs 2 = [] ∧
+    ((run condDecl init demoFail).cache 2).map (fun e => e.version) = some 1 ∧
+    ((run condDecl init (demoFail.take 6)).cache 3).map (fun e => e.seen 2) = some 1 ∧
+    ((run condDecl init demoFail).cache 3).map (fun e => e.seen 2) = some 2 ∧
+    (run condDecl init demoFail).gen 2 = 2 := by
   decide
 
 end Koreo.C16
